@@ -1000,6 +1000,20 @@ impl Store {
         current.ls_subscribers.push(subscriber);
     }
 
+    /// the ls subscribers registered for exactly this parent
+    pub fn ls_subscribers(&self, parent: &[RegularKeySegment]) -> Vec<LsSubscriber> {
+        let mut current = &self.subscribers;
+
+        for elem in parent {
+            match current.tree.get(elem) {
+                Some(node) => current = node,
+                None => return vec![],
+            }
+        }
+
+        current.ls_subscribers.clone()
+    }
+
     pub fn remove_ls_subscriber(&mut self, subscriber: LsSubscriber) {
         let mut current = &mut self.subscribers;
 
